@@ -105,9 +105,20 @@ def check_engine(rep, fb, ex, eq, callgraph):
         anc = sorted(t for t in lt if t.startswith('source-ancestry'))
         rep.check(len(anc) == 2, 'R01.13', eng + '|ancestor pre-emption', locstr(lsite), 'a transition whose source is an ancestor or descendant of an already selected transition\'s source is %s (terms: %s); a targetless transition has an empty exit set, so exit-set overlap alone lets the ancestor\'s transition fire as well' % (
             'recorded as conflicting' if len(anc) == 2 else 'NOT recorded as conflicting', sorted(lt)))
+        # W3C selects per atomic state along its ancestor chain: an ancestor's transition is pre-empted only on the chains of
+        # atomic descendants that have an enabled transition of their own.  A PAIRWISE conflict on source ancestry pre-empts it
+        # globally: with another region idle, Appendix D takes the ancestor's transition as well (exit sets do not intersect).
+        rep.check(len(anc) == 0 or False, 'R01.13', eng + '|pre-emption is per atomic state', locstr(lsite),
+                  'source ancestry is a pairwise conflict between transitions (%s): a targetless transition in one region pre-empts the parallel\'s own transition although another region reaches it unpre-empted' % sorted(anc))
         # ... and the ordered view it walks keeps every state (shared with C02 R02.9)
         from .C02 import comparator_keys
         comparator_keys(rep, fb, 'R01.13')
+    if f.rec.endswith('FastMicroStep'):
+        from .C03 import fast_conflict_terms
+        ft, _n = fast_conflict_terms(fb, fb.fn('uscxml::FastMicroStep::init'))
+        fanc = sorted(t for t in ft if t.startswith('source-ancestry'))
+        rep.check(len(fanc) == 0, 'R01.13', eng + '|pre-emption is per atomic state', fb.fn('uscxml::FastMicroStep::init').where(),
+                  'source ancestry is a pairwise conflict in the precomputed matrix (%s): a targetless transition in one region pre-empts the parallel\'s own transition although another region reaches it unpre-empted' % fanc)
     # R01.16 history default
     hn, hd = _skel.history_default_condition(f)
     if hn is None:
@@ -118,6 +129,8 @@ def check_engine(rep, fb, ex, eq, callgraph):
     exit_extent(rep, fb, f, eng)
     if f.rec.endswith('LargeMicroStep'):
         selection_cursor(rep, fb, 'R01.19')
+        from .C03 import in_final_rules
+        in_final_rules(rep, fb, 'R01.20')
     # R01.14 the set of still-compatible transitions only narrows
     if f.rec.endswith('LargeMicroStep'):
         narrowing_polarity(rep, fb, f, eng)
@@ -332,6 +345,7 @@ def run(rep, tier):
     rep.rule('R01.6', 'bitset typestate: no dynamic_bitset is indexed after clear() shrank it to zero bits')
     rep.rule('R01.8', 'interval closedness agreement: overlap and membership tests on exit intervals use non-strict comparisons, like the place that applies the interval')
     rep.rule('R01.9', 'state kind codes are an enumeration: they are compared, never bit-masked')
+    rep.rule('R01.20', 'done events of parallel states: isInFinal is Appendix D isInFinalState - a final state is, an atomic state is not, a compound state is iff an active child is a <final> (no default true, no recursion), a parallel iff all children are, pseudo-states are neutral (same rule as C03 R03.3)')
     rep.rule('R01.19', 'every active state is asked for transitions: the loop that selects transitions advances its cursor over the post-fix view only by the fetch, or skips further entries under a condition on the state just handled (its ancestors); a skip that judges whatever the cursor names after the fetch drops the next orthogonal region')
     rep.rule('R01.16', 'history default: a history pseudo-state takes its default transition exactly when nothing is remembered for it (no further condition such as "the parent is not active")')
     rep.rule('R01.15', 'extent of the exit interval: its upper end is the last descendant of the transition domain, i.e. it is computed from the ancestor relation (membership scan or a walk up the parents), never from the position of the domain\'s next sibling alone with the end of the document as fall-back')
